@@ -282,7 +282,7 @@ func (st *State) execCallValues(call *ast.CallExpr) []Outcome {
 			arr := st.allocRef()
 			sv := mkSlice(vt, arr, "0", sInt(int64(len(rest))), sInt(int64(len(rest))))
 			for i, a := range rest {
-				st.storeElem(sv, sInt(int64(i)), st.coerce(st.eval(a), sliceElemType(vt)))
+				st.storeElem(sv, sInt(int64(i)), st.coerce(st.coerceArg(st.eval(a), st.typeOf(a), sliceElemType(vt)), sliceElemType(vt)))
 			}
 			args = append(args, sv)
 		}
@@ -305,8 +305,11 @@ func (st *State) coerceArg(v Val, from, to types.Type) Val {
 		return st.zeroVal(to)
 	}
 	if classify(to) == tcIface && classify(from) != tcIface && from != nil {
-		if v.K != KInt {
-			return vInt(st.fc.fresh("iface", "Int"), to)
+		if v.K != KInt || classify(from) != tcPtr {
+			// boxing a non-pointer value: a non-nil opaque token
+			tok := st.fc.fresh("iface", "Int")
+			st.assume(sCmp(">", tok, "0"))
+			return vInt(tok, to)
 		}
 	}
 	return v
